@@ -466,8 +466,9 @@ static LY_ERR
 yin_parse_attribute(struct lysp_yin_ctx *ctx, enum yin_argument arg_type, const char **arg_val, enum yang_arg val_type,
         enum ly_stmt current_element)
 {
+    LY_ERR ret = LY_SUCCESS;
     enum yin_argument arg = YIN_ARG_UNKNOWN;
-    bool found = false;
+    bool found = false, stored = false;
 
     /* validation of attributes */
     while (ctx->xmlctx->status == LYXML_ATTRIBUTE) {
@@ -476,39 +477,47 @@ yin_parse_attribute(struct lysp_yin_ctx *ctx, enum yin_argument arg_type, const 
             arg = yin_match_argument_name(ctx->xmlctx->name, ctx->xmlctx->name_len);
             if (arg == YIN_ARG_NONE) {
                 /* skip it */
-                LY_CHECK_RET(lyxml_ctx_next(ctx->xmlctx));
+                LY_CHECK_GOTO(ret = lyxml_ctx_next(ctx->xmlctx), cleanup);
             } else if (arg == arg_type) {
-                LY_CHECK_ERR_RET(found, LOGVAL_PARSER((struct lysp_ctx *)ctx, LY_VCODE_DUP_ATTR,
-                        yin_attr2str(arg), lyplg_ext_stmt2str(current_element)), LY_EVALID);
+                LY_CHECK_ERR_GOTO(found, LOGVAL_PARSER((struct lysp_ctx *)ctx, LY_VCODE_DUP_ATTR,
+                        yin_attr2str(arg), lyplg_ext_stmt2str(current_element)); ret = LY_EVALID, cleanup);
                 found = true;
 
                 /* go to value */
-                LY_CHECK_RET(lyxml_ctx_next(ctx->xmlctx));
-                LY_CHECK_RET(yin_validate_value(ctx, val_type));
+                LY_CHECK_GOTO(ret = lyxml_ctx_next(ctx->xmlctx), cleanup);
+                LY_CHECK_GOTO(ret = yin_validate_value(ctx, val_type), cleanup);
                 INSERT_STRING_RET(ctx->xmlctx->ctx, ctx->xmlctx->value, ctx->xmlctx->value_len, ctx->xmlctx->dynamic, *arg_val);
                 LY_CHECK_RET(!(*arg_val), LY_EMEM);
+                stored = true;
             } else {
                 LOGVAL_PARSER((struct lysp_ctx *)ctx, LY_VCODE_UNEXP_ATTR, (int)ctx->xmlctx->name_len,
                         ctx->xmlctx->name, lyplg_ext_stmt2str(current_element));
-                return LY_EVALID;
+                ret = LY_EVALID;
+                goto cleanup;
             }
         } else {
             /* skip it */
-            LY_CHECK_RET(lyxml_ctx_next(ctx->xmlctx));
+            LY_CHECK_GOTO(ret = lyxml_ctx_next(ctx->xmlctx), cleanup);
         }
 
         /* next attribute */
-        LY_CHECK_RET(lyxml_ctx_next(ctx->xmlctx));
+        LY_CHECK_GOTO(ret = lyxml_ctx_next(ctx->xmlctx), cleanup);
     }
 
     /* anything else than Y_MAYBE_STR_ARG is mandatory */
     if ((val_type != Y_MAYBE_STR_ARG) && !found) {
         LOGVAL_PARSER((struct lysp_ctx *)ctx, LYVE_SYNTAX_YIN, "Missing mandatory attribute %s of %s element.",
                 yin_attr2str(arg_type), lyplg_ext_stmt2str(current_element));
-        return LY_EVALID;
+        ret = LY_EVALID;
     }
 
-    return LY_SUCCESS;
+cleanup:
+    if (ret && stored) {
+        /* the caller learns no value on error, it may have nowhere to keep it */
+        lydict_remove(ctx->xmlctx->ctx, *arg_val);
+        *arg_val = NULL;
+    }
+    return ret;
 }
 
 /**
@@ -619,9 +628,10 @@ static LY_ERR
 yin_parse_path(struct lysp_yin_ctx *ctx, struct lysp_type *type)
 {
     LY_ERR ret;
-    const char *str_path;
+    const char *str_path = NULL;
 
-    LY_CHECK_RET(yin_parse_simple_element(ctx, type, LY_STMT_PATH, &str_path, YIN_ARG_VALUE, Y_STR_ARG, &type->exts));
+    ret = yin_parse_simple_element(ctx, type, LY_STMT_PATH, &str_path, YIN_ARG_VALUE, Y_STR_ARG, &type->exts);
+    LY_CHECK_ERR_RET(ret, lydict_remove(ctx->xmlctx->ctx, str_path), ret);
 
     ret = ly_path_parse(ctx->xmlctx->ctx, NULL, str_path, 0, 1, LY_PATH_BEGIN_EITHER,
             LY_PATH_PREFIX_OPTIONAL, LY_PATH_PRED_LEAFREF, &type->path);
